@@ -203,3 +203,26 @@ func Harness_C16_CyclicTypes() {
 	c16RunDamaged(src)
 	verifCover("end")
 }
+
+// expressions that unify a variable with a structure containing itself (an
+// infinite type): fc has no occurs check; it must still end with a
+// diagnostic, however the cycle is nested and however many relations a
+// round of unification produces
+func Harness_C16_CyclicUnification() {
+	bodies := []string{
+		"[x; (x, x)]",
+		"[x; (x, x); ((x, x), (x, x))]",
+		"[x; [x]]",
+		"[x; [x]; [[x]]]",
+		"[(x, x); x; ((x, x), (x, x)); x]",
+		"if c then x else (x, x)",
+		"if c then [x] else [[x]; [(x, x)]]",
+	}
+	b := bodies[verifChoice("body", len(bodies))]
+	src := "package main\n\nlet f c x =\n  " + b + "\n"
+	if verifChoice("second", 2) == 1 {
+		src += "\nlet g (a:int) =\n  a + 1\n"
+	}
+	c16RunDamaged(src)
+	verifCover("end")
+}
